@@ -28,6 +28,185 @@ pub fn run(rep: &mut Report) {
         return;
     }
     core::run_c16(rep);
+    run_brcli(rep);
+}
+
+// ---- stream brcli: JaCoCo reports, branch markers, with and without `--branch` -----------------------
+//
+// main.rs 355-362 hands the three `--excl-br-*` regexes to `FileFilter::new` whether or not `--branch`
+// is given, and the JaCoCo reader fills `branches` with or without `--branch`: the branch markers must
+// remove the branch data of marked lines of a JaCoCo report in both cases (Props/C16Filter.lean
+// `C16_main_branch_flag_irrelevant`, `C16_run_jacoco_branch_flag_irrelevant`). Every case has a JaCoCo
+// input whose `<line>`s with branch counters sit on lines that carry a branch marker or lie in a branch
+// region; half of the cases run WITHOUT `--branch`.
+//  * tie: stdout == `Cli.RunAll.run` byte for byte (the model passes the six options whatever `--branch`);
+//  * oracle (core::eval_case): the decoded report is the aggregate of what the real parsers return
+//    in-process, with exactly the lines / branches removed that the independent marker rule names;
+//  * oracle: for JaCoCo-only inputs the run with the `--branch` flag flipped writes the same bytes.
+
+/// the literal markers `core` passes with the six options (core::MARKERS, same order)
+const MK: [&str; 6] = ["NOCOV", "BEGINX", "ENDX", "NOBR", "BRBEGIN", "BREND"];
+
+fn gen_java_text(rng: &mut Rng, n: usize) -> (Vec<u8>, Vec<usize>) {
+    // returns the text and the 1-based lines that carry a branch marker or lie in a branch region
+    let crlf = rng.chance(1, 3);
+    let mut lines: Vec<String> = vec![];
+    let mut hot = vec![];
+    let mut in_br = false;
+    for i in 0..n {
+        let mut l = format!("    stmt{}();", i + 1);
+        let k = rng.below(12);
+        let mut marks: Vec<usize> = vec![];
+        match k {
+            0 | 1 | 2 => marks.push(3),
+            3 | 4 => marks.push(4),
+            5 => marks.push(5),
+            6 => marks.push(0),
+            7 => marks.push(1),
+            8 => marks.push(2),
+            9 => { marks.push(5); marks.push(4); }
+            _ => {}
+        }
+        for &m in &marks {
+            l.push_str(" // ");
+            l.push_str(MK[m]);
+        }
+        // the state machine of the property text, for the generator's bias only (the oracle has its own)
+        if in_br && marks.contains(&5) { in_br = false; }
+        if marks.contains(&4) { in_br = true; }
+        if in_br || marks.contains(&3) { hot.push(i + 1); }
+        lines.push(l);
+    }
+    let eol = if crlf { "\r\n" } else { "\n" };
+    let mut s = lines.join(eol);
+    if rng.chance(5, 6) { s.push_str(eol); }
+    (s.into_bytes(), hot)
+}
+
+fn gen_jacoco_br(rng: &mut Rng, files: &[(&str, usize, Vec<usize>)], tag: usize) -> Vec<u8> {
+    let mut s = String::from("<?xml version=\"1.0\" encoding=\"UTF-8\" standalone=\"yes\"?><!DOCTYPE report PUBLIC \"-//JACOCO//DTD Report 1.0//EN\" \"report.dtd\">\n<report name=\"r\"><sessioninfo id=\"s\" start=\"1\" dump=\"2\"/>\n<package name=\"pkg\">\n");
+    for (f, _, _) in files {
+        let cls = f.trim_end_matches(".java");
+        s.push_str(&format!("<class name=\"pkg/{}\" sourcefilename=\"{}\"><method name=\"m\" desc=\"()V\" line=\"1\"><counter type=\"METHOD\" missed=\"0\" covered=\"1\"/></method></class>\n", cls, f));
+    }
+    for (f, n, hot) in files {
+        s.push_str(&format!("<sourcefile name=\"{}\">", f));
+        for nr in 1..=(*n + 1) {
+            let is_hot = hot.contains(&nr);
+            if is_hot && rng.chance(4, 5) || !is_hot && rng.chance(1, 4) {
+                s.push_str(&format!("<line nr=\"{}\" mi=\"0\" ci=\"2\" mb=\"{}\" cb=\"{}\"/>", nr, rng.range(0, 2), rng.range(1, 2)));
+            } else if rng.chance(2, 3) {
+                s.push_str(&format!("<line nr=\"{}\" mi=\"{}\" ci=\"{}\" mb=\"0\" cb=\"0\"/>", nr, rng.below(3), rng.below(3)));
+            }
+        }
+        s.push_str("</sourcefile>\n");
+    }
+    s.push_str(&format!("</package></report>\n<!-- {} -->\n", tag));
+    while s.len() < 300 { s.push_str("<!-- pad -->\n"); }
+    s.into_bytes()
+}
+
+fn gen_brcli_case(rng: &mut Rng, i: u64) -> core::Case {
+    let mut tree: Vec<(String, Vec<u8>)> = vec![];
+    let mut files: Vec<(&str, usize, Vec<usize>)> = vec![];
+    for f in ["A.java", "B.java"] {
+        let n = rng.range(3, 12) as usize;
+        let (text, hot) = gen_java_text(rng, n);
+        tree.push((format!("src/pkg/{}", f), text));
+        files.push((f, n, hot));
+    }
+    let mut inputs: Vec<(String, bool)> = vec![];
+    let n_in = rng.range(1, 2) as usize;
+    for k in 0..n_in {
+        let sel: Vec<(&str, usize, Vec<usize>)> = if k == 0 || rng.chance(1, 2) { files.clone() } else { files[..1].to_vec() };
+        tree.push((format!("in/in{}.xml", k), gen_jacoco_br(rng, &sel, k)));
+        inputs.push((format!("in/in{}.xml", k), true));
+    }
+    // now and then a tracefile beside the reports (C sources without text: nothing to exclude there)
+    let jacoco_only = !rng.chance(1, 4);
+    if !jacoco_only {
+        tree.push(("in/t.info".into(), b"TN:t\nSF:a.c\nFN:1,main\nFNDA:1,main\nDA:1,4\nDA:2,0\nBRDA:2,0,0,1\nBRDA:2,0,1,-\nend_of_record\n".to_vec()));
+        tree.push(("src/a.c".into(), b"int main() { // NOBR\n  return 0; // BRBEGIN\n}\n".to_vec()));
+        inputs.push(("in/t.info".into(), false));
+    }
+    rng.shuffle(&mut inputs);
+    let mut excl = [false; 6];
+    for (k, e) in excl.iter_mut().enumerate() {
+        *e = if k >= 3 { rng.chance(3, 4) } else { rng.chance(1, 3) };
+    }
+    if !(excl[3] || excl[4]) {
+        excl[*rng.pick(&[3usize, 4])] = true;
+    }
+    let ty = *rng.pick(&["lcov", "lcov", "lcov", "coveralls", "coveralls+", "covdir", "cobertura", "ade"]);
+    core::Case {
+        tree,
+        cwd: ".".into(),
+        source_dir: true,
+        inputs,
+        ty: ty.to_string(),
+        sorted: rng.chance(1, 2),
+        branch: i % 2 == 1,
+        ignore: vec![],
+        keep: vec![],
+        filter: None,
+        ignore_not_existing: false,
+        excl,
+        threads: rng.range(1, 2) as usize,
+    }
+}
+
+fn brcli_flip_oracle(rep: &mut Report, dir: &std::path::Path, c: &core::Case, case: &serde_json::Value) {
+    // JaCoCo-only inputs, a type without a time stamp: `--branch` must not matter
+    if c.inputs.iter().any(|i| !i.1) || !["lcov", "covdir", "ade"].contains(&c.ty.as_str()) {
+        return;
+    }
+    let args: Vec<String> = c.inputs.iter().map(|i| i.0.clone()).collect();
+    let a = core::run_real(dir, c, &args, 1, true);
+    let mut c2 = c.clone();
+    c2.branch = !c.branch;
+    let b = core::run_real(dir, &c2, &args, 1, true);
+    rep.count("brcli.oracle.branch_flag_flipped");
+    if a.exit != b.exit || a.stdout != b.stdout {
+        // unsorted lcov / ade may list the records in another order: compare decoded
+        let same = match (core::decode(&c.ty, &a.stdout), core::decode(&c.ty, &b.stdout)) {
+            (Ok((x, _)), Ok((y, _))) => x == y && a.exit == b.exit,
+            _ => false,
+        };
+        if !same {
+            rep.fail("oracle", None,
+                format!("JaCoCo inputs with --excl-br-*: the {} report with --branch differs from the report without --branch (a JaCoCo report carries its branch data in both cases, and the branch markers must act in both)", c.ty),
+                serde_json::json!({"case": case, "with_branch": if c.branch { &a.stdout } else { &b.stdout }, "without_branch": if c.branch { &b.stdout } else { &a.stdout }}));
+        }
+    }
+}
+
+pub fn run_brcli(rep: &mut Report) {
+    rep.rule.push_str("; brcli stream: the real binary on 1-2 JaCoCo reports (branch counters on lines that carry a branch marker or lie in a branch region) with --excl-br-line/-start/-stop (and line markers), alternately with and without --branch, types lcov / coveralls(+) / covdir / cobertura / ade: stdout == RunAll.run byte for byte, decoded report == aggregate with exactly the marked lines / branches removed, --branch flipped gives the same report");
+    let n = rep.budget(24, 12);
+    let mut rng = Rng::new(rep.seed ^ 0xC16B12);
+    let root = std::fs::canonicalize(&rep.workdir).unwrap().join("brcli16");
+    let _ = std::fs::remove_dir_all(&root);
+    std::fs::create_dir_all(&root).unwrap();
+    let t0 = std::time::Instant::now();
+    let mut pend = vec![];
+    for i in 0..n {
+        if rep.verdict_clear() {
+            break;
+        }
+        let c = gen_brcli_case(&mut rng, i);
+        let dir = root.join(format!("case{}", i));
+        rep.case(&c.canonical(), true);
+        rep.count(if c.branch { "brcli.with_--branch" } else { "brcli.without_--branch" });
+        rep.count(&format!("brcli.type.{}", c.ty));
+        if let Some(p) = core::eval_case(rep, &dir, &c, "runall.c16br", true) {
+            let case = p.case.clone();
+            pend.push(p);
+            brcli_flip_oracle(rep, &dir, &c, &case);
+        }
+        let _ = std::fs::remove_dir_all(&dir);
+    }
+    core::compare(rep, &pend, "brcli16");
+    rep.notes.push(format!("brcli stream: {} runs on JaCoCo reports with branch markers (half without --branch) tied byte for byte with RunAll.run, {} ms", pend.len(), t0.elapsed().as_millis()));
 }
 
 pub fn replay(rep: &mut Report, case: &serde_json::Value) -> bool {
